@@ -110,7 +110,8 @@ CLAIMED = {
 NA_REASON = {
 }
 
-SUFFIX = " The generators also produce the rare wide and history-dependent shapes that four rounds of independently seeded breaking changes showed to matter (DESIGN.md section 10; the evidence file's rule lists them); thorough tier: 10-30x the cases plus a coverage-guided libFuzzer leg carrying the same oracle."
+SUFFIX = " The generators also produce the rare wide and history-dependent shapes that four rounds of independently seeded breaking changes showed to matter (DESIGN.md section 10; the evidence file's rule lists them); thorough tier: 10-30x the cases."
+FUZZ_SUFFIX = " The thorough tier adds a coverage-guided libFuzzer leg carrying the same oracle."
 
 ALL = [json.loads(l)["id"] for l in open("/verif/properties.jsonl")]
 
@@ -127,7 +128,7 @@ def main():
             "evidence_file": f"/verif/evidence/{pid}.json",
             "replay_cmd_template": f"./check {pid} --replay {{path}}",
             "engine": "vcheck",
-            "level_claimed": {"category": "exploration", "text": c["text"] + SUFFIX, "design_ref": c["ref"]},
+            "level_claimed": {"category": "exploration", "text": c["text"] + SUFFIX + ("" if pid in ("C10", "C20") else FUZZ_SUFFIX), "design_ref": c["ref"]},
             "level_note": c["note"],
             "technique": c["technique"],
         })
